@@ -403,9 +403,11 @@ pub fn cell_set(rng: &mut Rng, flavour: &str) -> Vec<MCell> {
             // same-resolution cells equally spaced in id space by the stride of ANOTHER level (every 4th / 16th cell, the
             // same position in consecutive quintants or faces): they look like a sibling group to a stride-based check
             // that uses the wrong stride, but are not one. Optionally padded with unrelated cells.
-            let res = 2 + rng.below(10) as i32;
+            let span = if rng.chance(0.3) { 28 } else { 10 };
+            let res = 2 + rng.below(span) as i32;
             let c = random_cell(rng, res);
-            let w = encode(MCell::new(res, c.face, c.q, c.s & !3));
+            // the progression starts at a first child half of the time, at any child otherwise
+            let w = encode(MCell::new(res, c.face, c.q, if rng.chance(0.5) { c.s & !3 } else { c.s }));
             let other = match rng.below(3) {
                 0 => 58,                                               // top-6-bit stride: same position, next quintant
                 1 => marker_bit((res - 1 - rng.below(2) as i32).max(2)) + 1, // a coarser Hilbert level
@@ -418,6 +420,15 @@ pub fn cell_set(rng: &mut Rng, flavour: &str) -> Vec<MCell> {
                         if k.res == res {
                             out.push(k);
                         }
+                    }
+                }
+            }
+            if rng.chance(0.5) && res >= 3 {
+                // a coarser cell directly before the progression in id order (the cell just before the first one's parent)
+                if let Some(first) = out.first().copied() {
+                    let p = parent_at(first, res - 1).unwrap();
+                    if p.s > 0 {
+                        out.push(MCell::new(p.res, p.face, p.q, p.s - 1));
                     }
                 }
             }
@@ -440,6 +451,29 @@ pub fn cell_set(rng: &mut Rng, flavour: &str) -> Vec<MCell> {
             }
             out.sort();
             out.dedup();
+        }
+        "spine" => {
+            // a complete covering of a root in which ONE path is refined all the way down to a random depth (up to the
+            // finest resolution): every level holds the path cell's siblings, so compaction has to cascade through every
+            // level back to the root - one merge per pass
+            let root = match rng.below(3) {
+                0 => WORLD,
+                1 => MCell::new(0, rng.below(12) as u8, 0, 0),
+                _ => MCell::new(1, rng.below(12) as u8, rng.below(5) as u8, 0),
+            };
+            let deepest = if rng.chance(0.4) { MAX_RES } else { (root.res + 1 + rng.below(28) as i32).min(MAX_RES) };
+            let mut cur = root;
+            while cur.res < deepest {
+                let kids = children_at(cur, cur.res + 1);
+                let k = rng.usize(kids.len());
+                for (i, c) in kids.iter().enumerate() {
+                    if i != k {
+                        out.push(*c);
+                    }
+                }
+                cur = kids[k];
+            }
+            out.push(cur);
         }
         "ancestors" => {
             // an antichain plus, for a third of its cells, a chain of 1-3 consecutive ancestors
@@ -628,7 +662,7 @@ mod tests {
                 assert!(lon.is_finite() && lat.abs() <= 90.0, "{c} {lon} {lat}");
             }
         }
-        for f in ["antichain", "complete", "multiroot", "lowres", "lookalike"] {
+        for f in ["antichain", "complete", "multiroot", "lowres", "lookalike", "spine"] {
             for _ in 0..50 {
                 let s = cell_set(&mut rng, f);
                 assert!(!s.is_empty());
